@@ -291,3 +291,25 @@ Proof.
   - destruct l as [|c t]; [simpl; lia|].
     specialize (Hk c (or_introl eq_refl)). unfold known in Hk. rewrite He in Hk. discriminate.
 Qed.
+
+(* the grant of a static provisioning reconcile on a pool with nothing reserved: it asks for
+   replicas - active and gets that unless the node limit is closer; with enough headroom the pool
+   reaches the replica count, and then the reconcile's guard (active + pending >= replicas) holds *)
+Lemma provision_grant_l : forall s np l r a d p,
+  counts s np = (a, d, p) -> reserved s np = 0 -> a + p < r ->
+  exists s' g, reserve s np l (r - a) = Ok s' g /\
+    g = Z.max 0 (Z.min (r - a) (l - (a + d + p))) /\
+    counts s' np = (a, d, p) /\ reserved s' np = g /\
+    (r + d + p <= l -> a + g = r) /\
+    (0 <= p -> 0 <= l - (a + d + p) -> a + d + p + g <= l).
+Proof.
+  intros s np l r a d p Hc Hr Hlt.
+  destruct (reserve_spec s np l (r - a)) as [s' [g [H [Hc' [_ [_ [Hr' [_ Hg]]]]]]]].
+  exists s', g. unfold cnt in Hg. rewrite Hc, Hr in Hg. cbv beta iota in Hg. rewrite Hc', Hr' , Hr, Hc.
+  assert (Hnn : 0 <= a /\ 0 <= d /\ 0 <= p).
+  { unfold counts in Hc. destruct (pool s np); inversion Hc; lia. }
+  assert (Hgv : g = Z.max 0 (Z.min (r - a) (l - (a + d + p)))).
+  { match type of Hg with context [if ?b then _ else _] => destruct b eqn:E end;
+      [apply Z.ltb_lt in E | apply Z.ltb_ge in E]; lia. }
+  repeat split; try assumption; try lia.
+Qed.
